@@ -248,6 +248,54 @@ def validation_chain_rules(prog, chk, pid):
         chk.require(okq, P("validation-switch-off-sites"), q, ast.unparse(n)[:70], "%s:%d" % (m.relpath, n.lineno), "the only site that skips point validation builds the public point itself as a multiple of the generator", "point validation is switched off at a site that handles external data")
     if not offenders:
         chk.ok(P("validation-switch-off-sites"), "whole program", "no call binds validate_point/verify to False", "", "validation cannot be bypassed")
+    # positional bindings: whatever reaches the `validate_point` / `verify` parameter of the loaders must be that flag itself (or True)
+    targets = {}
+    for q, names in ((KEYS + ".VerifyingKey.from_string", ("from_string",)), (KEYS + ".VerifyingKey.from_public_point", ("from_public_point",)), (ECD + ".Public_key.__init__", ("Public_key",))):
+        f = prog.funcs.get(q)
+        if f is not None:
+            a = f.node.args
+            params = [x.arg for x in a.posonlyargs + a.args]
+            if params and params[0] in ("self", "cls"):
+                params = params[1:]
+            for nm in names:
+                targets[nm] = (f, params)
+    bad_bind = []
+    nsites = 0
+    for m in prog.modules.values():
+        if m.is_test or not m.name.startswith("register_crypto_plugin"):
+            continue
+        for n in ast.walk(m.tree):
+            if not isinstance(n, ast.Call):
+                continue
+            fn = n.func
+            nm = fn.attr if isinstance(fn, ast.Attribute) else (fn.id if isinstance(fn, ast.Name) else "")
+            if nm not in targets:
+                continue
+            # SigningKey.from_string has no validation flag: only VerifyingKey / cls-in-VerifyingKey receivers count
+            if nm in ("from_string", "from_public_point"):
+                recv = ast.unparse(fn.value) if isinstance(fn, ast.Attribute) else ""
+                encl_cls = None
+                for c in ast.walk(m.tree):
+                    if isinstance(c, ast.ClassDef) and c.lineno <= n.lineno <= (c.end_lineno or c.lineno):
+                        encl_cls = c.name
+                if not (recv == "VerifyingKey" or (recv == "cls" and encl_cls == "VerifyingKey")):
+                    continue
+            f, params = targets[nm]
+            nsites += 1
+            flag = "validate_point" if "validate_point" in params else "verify"
+            bound = None
+            if flag in params and params.index(flag) < len(n.args) and not any(isinstance(x, ast.Starred) for x in n.args):
+                bound = n.args[params.index(flag)]
+            for kw in n.keywords:
+                if kw.arg == flag:
+                    bound = kw.value
+            if bound is None:
+                continue
+            okb = (isinstance(bound, ast.Constant) and bound.value is True) or (isinstance(bound, ast.Name) and bound.id in ("validate_point", "verify")) or (isinstance(bound, ast.Constant) and bound.value is False)
+            if not okb:
+                bad_bind.append("%s:%d %s(... %s=%s ...)" % (m.relpath, n.lineno, nm, flag, ast.unparse(bound)))
+    chk.require(not bad_bind and nsites >= 3, P("validation-flag-binding"), "register_crypto_plugin (all call sites of from_string / from_public_point / Public_key)", "%d call sites: the validation flag is left at its default, passed on, or literal" % nsites, bad_bind[0].split(" ")[0] if bad_bind else "",
+                "no call site binds another value (for example a shifted positional argument) to the point-validation flag", "the validation flag receives something else: %s" % bad_bind[:2])
 
 
 def decoded_coordinates_rules(prog, chk, pid):
